@@ -30,6 +30,9 @@ VGiant(x) == LET need == Worst(x.nb) * x.km + Worst(x.nb) * x.vm IN
      FailIf(need > IntMaxMillions /\ x.rc = 0, "C17", "required size exceeds INT_MAX but a (wrapped) figure was returned with success")
   \o FailIf(x.rc = 0 /\ (~x.nonneg \/ x.reqm < need), "C17", "reported size is smaller than the worst case")
 
+\* the allocating variant on such a list: refused, and no string handed out
+VGiantMalloc(x) == FailIf(Worst(x.nb) * x.km + Worst(x.nb) * x.vm > IntMaxMillions /\ (x.rc = 0 \/ ~x.untouched), "C17", "the allocating variant accepted a list whose size exceeds INT_MAX (or handed out a string with its refusal)")
+
 \* the boundary itself: the list's exact worst-case size (lengths only; keys share one buffer) is within 3 of INT_MAX.
 \* TLC integers are 32 bit: sizes are kept as <<hi, lo>> in base 2^20.
 B20 == 1048576
@@ -45,6 +48,6 @@ VBoundary(x) == LET need == SumItems(x.items, 1, x.nb, <<0, 0>>) IN
   \o FailIf(~PairGt(need, IntMaxPair) /\ x.rc # 0, "C17", "a size that fits INT_MAX was refused")
 
 V(x) == CASE x.e = "ComposeReqBoundary" -> VBoundary(x) [] x.e = "ComposeReq" -> VComposeReq(x) [] x.e = "Compose" -> VCompose(x) [] x.e = "ComposeMalloc" -> VComposeMalloc(x)
-          [] x.e = "Dissect" -> VDissect(x) [] x.e = "ComposeReqGiant" -> VGiant(x) [] OTHER -> Fail("C17", "unknown event")
+          [] x.e = "Dissect" -> VDissect(x) [] x.e = "ComposeReqGiant" -> VGiant(x) [] x.e = "ComposeMallocGiant" -> VGiantMalloc(x) [] OTHER -> Fail("C17", "unknown event")
 TNext == TStep(V)
 =============================================================================
